@@ -14,8 +14,8 @@
    modulo 2^256 as in the code; blockStamp / resend logic, the data payload, events and locking are
    not modelled.
 
-   [cfg] selects the repaired code ([fixed_cfg], what the theorems are about) or the code as it was
-   before the repairs F4 / F5 (used for the refutation witnesses and to recognise the old mechanism
+   [cfg] selects the repaired code ([fixed_cfg] and [repaired true], what the theorems are about) or the code as
+   it was before the repairs F4 / F5 (used for the refutation witnesses and to recognise the old mechanism
    in the correspondence). *)
 From NG Require Import Common.Tactics.
 Open Scope N_scope.
@@ -95,8 +95,12 @@ Definition set_fees (s : pool) (f : list (payer * (N * N))) : pool :=
 Definition set_oresp (s : pool) (o : list (N * N)) : pool :=
   mkPool (vtxs s) (vmap s) (fees s) (confs s) o (cap s) (fpbmin s).
 
-Record cfg := mkCfg { fix_oom : bool; fix_payer : bool }.
-Definition fixed_cfg := mkCfg true true.
+(* [follow_fpb]: repair F57 - loadPolicy stores the Feer's fee per byte at every RemoveStale (it follows decreases
+   too), so that a later increase is compared with the current value; before it only increases were stored. Both
+   are accepted behaviours of the repaired code ([repaired false] = [fixed_cfg], [repaired true]). *)
+Record cfg := mkCfg { fix_oom : bool; fix_payer : bool; follow_fpb : bool }.
+Definition repaired (follow : bool) : cfg := mkCfg true true follow.
+Definition fixed_cfg := repaired false.
 
 Inductive err := EDup | EInsufficient | EConflict | EConflictsAttr | EOracle | EOOM.
 Inductive res := ROk | RErr (e : err) | RBool (b : bool) | RPanic.
@@ -376,6 +380,13 @@ Definition remove_stale (bal : payer -> N) (newfpb : N) (isok : tx -> bool) (s :
     fold_left (stale_step bal isok changed fpb) (vtxs s) ([], vmap s, [], [], oresp s) in
   mkPool keep vm f c o (cap s) fpb.
 
+(* loadPolicy after repair F57: the stored fee per byte is the Feer's, whether it rose or fell. What is kept and
+   what is dropped by THIS RemoveStale is the same either way (the filter applies when the value rose). *)
+Definition set_fpbmin (s : pool) (f : N) : pool :=
+  mkPool (vtxs s) (vmap s) (fees s) (confs s) (oresp s) (cap s) f.
+Definition stale_variant (c : cfg) (newfpb : N) (p : pool) : pool :=
+  if follow_fpb c then set_fpbmin p newfpb else p.
+
 (* ---------- operation sequences ---------- *)
 Inductive op :=
 | OAdd (t : tx)
@@ -390,7 +401,7 @@ Definition step (c : cfg) (st : state) (o : op) : res * state :=
   | OAdd t => let '(r, s) := add c (st_bal st) (st_pool st) t in (r, mkState s (st_bal st))
   | ORemove h => let '(r, s) := remove h (st_pool st) in (r, mkState s (st_bal st))
   | OVerify t => let '(r, s) := verify c (st_bal st) (st_pool st) t in (r, mkState s (st_bal st))
-  | OStale isok bal' newfpb => (ROk, mkState (remove_stale bal' newfpb isok (st_pool st)) bal')
+  | OStale isok bal' newfpb => (ROk, mkState (stale_variant c newfpb (remove_stale bal' newfpb isok (st_pool st))) bal')
   end.
 
 Definition run (c : cfg) (st : state) (ops : list op) : state :=
@@ -450,7 +461,7 @@ Definition rstep (c : cfg) (rs : rstate) (ro : rop) : (res * list tx) * rstate :
   | RSetResend t => ((ROk, []), mkR (r_st rs) (r_stamps rs) t)
   | RO (OStale isok bal' newfpb) h =>
       let '(p, resent) := remove_stale_rs bal' newfpb isok h (r_thr rs) (r_stamps rs) (st_pool (r_st rs)) in
-      ((ROk, resent), mkR (mkState p bal') (r_stamps rs) (r_thr rs))
+      ((ROk, resent), mkR (mkState (stale_variant c newfpb p) bal') (r_stamps rs) (r_thr rs))
   | RO (OAdd t) h =>
       let '(r, st') := step c (r_st rs) (OAdd t) in
       ((r, []), mkR st' (match r with ROk => mset N.eqb (tid t) h (r_stamps rs) | _ => r_stamps rs end) (r_thr rs))
